@@ -473,8 +473,8 @@ func (r *Run) stackString() string {
 }
 
 func shortPath(p string) string {
-	if i := strings.Index(p, "/repo/"); i >= 0 {
-		return p[i+6:]
+	if strings.HasPrefix(p, repoDir+"/") {
+		return p[len(repoDir)+1:]
 	}
 	if i := strings.LastIndex(p, "/src/"); i >= 0 {
 		return p[i+5:]
